@@ -353,7 +353,7 @@ def run(ctx):
         key = norm_key(kind, clause, trace, l)
         events = strip(trace)[:l]
         if key not in shrunk:
-            if len(shrunk) < (4 if ctx.quick else 12):
+            if len(shrunk) < (2 if ctx.quick else 12):
                 small = shrink(ctx, kind, events, clause.split(':')[0])
                 st = record(kind, small)
                 v = ctx.validate('Trace_VarFactory', 'Trace_VarFactory', [{'kind': kind, 'events': st}])
